@@ -158,6 +158,68 @@ def criterion(info):
     return vcs + red.lemmas
 
 
+# ---------------------------------------------------------------------------------------------------- ::make_ro1
+def h_clamp(w, n, a, c):
+    """std::clamp(v, lo, hi) [alg.clamp]: precondition !(hi < lo) (obliged); v < lo ? lo : hi < v ? hi : v"""
+    from eig import real_of
+    v, lo, hi = [real_of(w, w.ev(x)) for x in a]
+    w.oblige('std::clamp: lo <= hi', f'(<= {lo} {hi})', n)
+    return V(f'(ite (< {v} {lo}) {lo} (ite (< {hi} {v}) {hi} {v}))', 'Real', 'double')
+
+
+def ro1(info):
+    """the initial penalty parameter: make_ro1(state) with its DEFAULT bounds lies in [1e-6, 10] (what the CBMC stub nv_make_ro1 states), in
+    particular it is > 0; the call site of the AL solver must use the defaults"""
+    from fractions import Fraction
+    path = astload.resolve_tu(AL_TU)
+    fn = astload.find_definition(AL_TU, 'make_ro1', 'make_ro1')
+    tag = 'make_ro1'
+    wp = EigWP(tag)
+    wp.const('n_eq', 'Int', 'long')
+    wp.const('n_ineq', 'Int', 'long')
+    h = AV([wp.leaf('h')], 'n_eq')
+    g = AV([wp.leaf('g')], 'n_ineq')
+    fx = wp.const('fx', 'Real', 'double')
+    wp.members = [(r'^ceq\|.*solver_state_t', lambda w, n, a, o: h), (r'^cineq\|.*solver_state_t', lambda w, n, a, o: g),
+                  (r'^fx\|.*solver_state_t', lambda w, n, a, o: fx)] + list(wp.members)
+    wp.calls = [(r'^clamp\|', h_clamp)] + list(wp.calls)
+    defaults = []
+    for k, (key, p) in enumerate(wp.bind_params(fn)):
+        q = astload.param_types(fn)[k]
+        if 'solver_state_t' in q:
+            wp.env[key] = V(key, 'Opaque', None)
+            continue
+        init = [x for x in p.get('inner', []) if x.get('kind') != 'FullComment']
+        if not init:
+            raise Unsupported(f'{tag}: parameter {key} without a default value')
+        c = wp.const(f'p{k}', 'Real', 'double')
+        wp.env[key] = c
+        defaults.append(f'(= {c.t} {wp.conv(wp.ev(init[0]), "Real", "double").t})')
+    if len(defaults) != 2:
+        raise Unsupported(f'{tag}: expected (state, lower bound = .., upper bound = ..)')
+    # the call site: both bounds defaulted (the CBMC stub takes the state only)
+    dm = astload.find_definition(AL_TU, 'solver_augmented_lagrangian_t::do_minimize', 'do_minimize')
+    sites = [c for c in astload.walk(dm) if c.get('kind') == 'CallExpr' and c.get('inner') and
+             nvwp_unwrap(c['inner'][0]).get('referencedDecl', {}).get('name') == 'make_ro1']
+    if not sites or any([a.get('kind') for a in c['inner'][2:]] != ['CXXDefaultArgExpr', 'CXXDefaultArgExpr'] for c in sites):
+        raise Unsupported(f'{tag}: the AL solver does not call make_ro1(state) with the default bounds')
+    rv = run1(wp, fn, path)
+    info.append(fninfo(tag, '::make_ro1(state, ro_min = 1e-6, ro_max = 10)', path, fn))
+    red = Red(wp.decls, defaults, tag)
+    src = {'file': path, 'line': fn.get('loc', {}).get('line')}
+    vcs = red.from_wp(wp, tag, path)
+    lo = Fraction(float('1e-6'))
+    vcs.append(red.vc(f'{tag}/range_of_the_initial_penalty: 1e-6 <= make_ro1(state) <= 10 (the double literals), hence > 0', [],
+                      f'(and (>= {rv.t} (/ {lo.numerator}.0 {lo.denominator}.0)) (<= {rv.t} 10.0) (> {rv.t} 0.0))',
+                      'any state, any number of constraints; the sums h.h and G.G are arbitrary reals', src))
+    return vcs
+
+
+def nvwp_unwrap(n):
+    from cxx2c import unwrap
+    return unwrap(n)
+
+
 # ---------------------------------------------------------------------------------------------------- KKT residuals
 # the definitions, from the documentation of include/nano/solver/state.h (test k = infinity norm of the k-th vector condition):
 #   test 1: g_i(x) <= 0           -> | max(g, 0) |_inf        test 2: h_j(x) == 0   -> | h |_inf
